@@ -126,7 +126,7 @@ def run(spec):
     if spec.get('family') == 'engine':
         from vmon.checks import c10
         from vmon.util import harvest
-        return harvest(c10.run(spec['c10']), ('structural_ops_carried_out', 'ledger_in_order', 'no_exception'), ['engine'])
+        return harvest(c10.run(spec['c10']), ('structural_ops_carried_out', 'ledger_in_order', 'update_object_intact', 'no_exception'), ['engine'])
     from vivarium.core.composer import Composite
     from vivarium.core.process import Process
     from vmon import structw
